@@ -163,7 +163,7 @@ def main():
             json.dump(results, open(out, "w"), indent=1)
         open(path, "w").write(orig)
     tag = __import__("hashlib").sha1(scratch.encode()).hexdigest()[:8]
-    sh("git -C /repo worktree remove --force %s; rm -rf %s/.build/*-%s" % (scratch, VERIF, tag))
+    sh("git -C /repo worktree remove --force %s; rm -rf %s/.build/*-%s %s/.build/*-%s-*" % (scratch, VERIF, tag, VERIF, tag))
     n = len(results)
     surv = [r for r in results if r["survived"]]
     print("mutants %d, killed %d, not compiling %d, survived %d" % (n, sum(1 for r in results if not r["survived"] and not r.get("not_compiling")), sum(1 for r in results if r.get("not_compiling")), len(surv)))
